@@ -31,6 +31,8 @@ type c05World struct {
 	n     int
 	// connID, when set, is the Rdg-Connection-Id the next requests carry
 	connID string
+	// cookie, when set, is sent as Cookie header with the next requests
+	cookie string
 }
 
 func (w *c05World) has(m string) bool {
@@ -52,6 +54,9 @@ func (w *c05World) request(method string, auths []string, from string) *env.HTTP
 	}
 	for _, a := range auths {
 		hdr = append(hdr, [2]string{"Authorization", a})
+	}
+	if w.cookie != "" {
+		hdr = append(hdr, [2]string{"Cookie", w.cookie})
 	}
 	if method == "RDG_OUT_DATA" && w.n%2 == 0 {
 		hdr = append(hdr, [2]string{"Connection", "Upgrade"}, [2]string{"Upgrade", "websocket"}, [2]string{"Sec-WebSocket-Version", "13"}, [2]string{"Sec-WebSocket-Key", "AAAAAAAAAAAAAAAAAAAAAA=="})
@@ -163,7 +168,7 @@ func runC05(c *Ctx) {
 	for i := 0; i < 3+c.T.Choose(4) && c.S.Viol == nil; i++ {
 		method := []string{"RDG_OUT_DATA", "RDG_OUT_DATA", "RDG_IN_DATA", "GET", "POST"}[c.T.Choose(5)]
 		from := fmt.Sprintf("10.6.0.%d:%d", 1+i, 46000+i)
-		kind := c.T.Choose(15)
+		kind := c.T.Choose(16)
 		if w.has("kerberos") && c.T.Bool(1, 3) {
 			kind = 100 + c.T.Choose(5)
 		}
@@ -447,6 +452,44 @@ func runC05(c *Ctx) {
 					e.Shut()
 				}
 				r = nil
+			}
+		case 15:
+			// somebody who signed in at the web front end (OpenID) a moment ago presents the
+			// browser's session cookie next to Basic credentials: the cookie confirms nothing for
+			// the gateway endpoint, the password decides
+			if !w.has("openid") || !w.has("local") || fault != "" {
+				what = "basic-wrong(\"bob\",\"wrong\")"
+				r = w.request(method, []string{basic("bob", "wrong")}, from)
+				expectReached = open && (method == "RDG_OUT_DATA" || method == "RDG_IN_DATA")
+				break
+			}
+			{
+				w.n++
+				b := c.W.NewBrowser(fmt.Sprintf("web%d", w.n), fmt.Sprintf("%s:%d", clientIP(from), 52000+i))
+				b.TLS = w.tls
+				if ok, cb := b.Login("/connect", &env.IdPUser{Sub: "alice", Claims: map[string]any{"preferred_username": "alice"}}); !ok || b.Jar["RDPGWSESSION"] == "" {
+					c.Infra("C05: browser login for the session-cookie request failed: %d %v", cb.Status, b.Log)
+					return
+				}
+				w.cookie = "RDPGWSESSION=" + b.Jar["RDPGWSESSION"]
+				v := c.T.Choose(4)
+				switch v {
+				case 0:
+					what = "signed-in-session-cookie+basic-wrong-password(alice)"
+					r = w.request(method, []string{basic("alice", "wrong")}, from)
+				case 1:
+					what = "signed-in-session-cookie+basic-empty-password(alice)"
+					r = w.request(method, []string{basic("alice", "")}, from)
+				case 2:
+					what = "signed-in-session-cookie(alice)+basic-wrong-password(bob)"
+					r = w.request(method, []string{basic("bob", "correct horse")}, from)
+				default:
+					what = "basic-correct(alice)+signed-in-session-cookie"
+					r = w.request(method, []string{basic("alice", "correct horse")}, from)
+					expectReached = method == "RDG_OUT_DATA" || method == "RDG_IN_DATA"
+				}
+				w.cookie = ""
+				c.S.Count("probe.web_session_cookie_next_to_basic_credentials")
 			}
 		case 8:
 			// valid Basic credentials whose base64 text contains the letters NTLM
